@@ -149,11 +149,17 @@ func sanitizationContextForAttrVal(element, attr, linkRel string) (sanitizationC
 	if element == "link" && attr == "href" {
 		// Special case: safehtml.URL values are allowed in a link element's href attribute if that element's
 		// rel attribute possesses certain values.
+		// Every rel value has to be a listed one: a single value such as "stylesheet"
+		// makes the link load code or styles, whatever the other values are.
 		relVals := strings.Fields(linkRel)
+		allURLRelVals := len(relVals) > 0
 		for _, val := range relVals {
-			if urlLinkRelVals[val] {
-				return sanitizationContextTrustedResourceURLOrURL, nil
+			if !urlLinkRelVals[val] {
+				allURLRelVals = false
 			}
+		}
+		if allURLRelVals {
+			return sanitizationContextTrustedResourceURLOrURL, nil
 		}
 	}
 	if dataAttributeNamePattern.MatchString(attr) {
